@@ -28,21 +28,21 @@ def C(*a, **k):
 C(SC + ".get", params={"self": SELF, "key": "str", "default": "any"}, defaults={"default": None},
   requires=NOMARK,
   ensures=["result is " + VISIBLE % "default"],
-  result="any", ghost=G, serves=["C05", "C09", "C04"])
+  result="any", ghost=dict(G, harness=('bounded.scope_harness', 'scope_get'), search={'generator': ('bounded.scope_harness', 'gen_scope_keys')}), serves=["C05", "C09", "C04"])
 
 C(SC + ".__getitem__", params={"self": SELF, "key": "str"}, requires=NOMARK,
   ensures=["result is " + VISIBLE % "None", DEFINED],
   raises={"KeyError": {"when": "not " + DEFINED, "iff": True}},
-  result="any", ghost=G, serves=["C05"])
+  result="any", ghost=dict(G, harness=('bounded.scope_harness', 'scope_getitem'), search={'generator': ('bounded.scope_harness', 'gen_scope_keys')}), serves=["C05"])
 
 C(SC + ".__contains__", params={"self": SELF, "key": "str"}, requires=NOMARK,
   ensures=["result == " + DEFINED],
-  result="bool", ghost=G, serves=["C05"])
+  result="bool", ghost=dict(G, harness=('bounded.scope_harness', 'scope_contains'), search={'generator': ('bounded.scope_harness', 'gen_scope_keys')}), serves=["C05"])
 
 C(SC + ".get_name", params={"self": SELF, "key": "str"}, requires=NOMARK,
   ensures=["result is " + VISIBLE % "None", DEFINED],
   raises={"NameError": {"when": "not " + DEFINED, "iff": True}},
-  result="any", ghost=G, serves=["C05", "C04"])
+  result="any", ghost=dict(G, harness=('bounded.scope_harness', 'scope_get_name'), search={'generator': ('bounded.scope_harness', 'gen_scope_keys')}), serves=["C05", "C04"])
 
 C(SC + ".set_global", params={"self": SELF, "name": "str", "value": "any"},
   ensures=[
@@ -52,7 +52,7 @@ C(SC + ".set_global", params={"self": SELF, "name": "str", "value": "any"},
       # ... and a local binding of the same name keeps shadowing it
       "self._root is None or same_map(self.own, old(self.own))",
   ],
-  ghost=G, serves=["C05", "C09"])
+  ghost=dict(G, harness=('bounded.scope_harness', 'scope_set_global'), search={'generator': ('bounded.scope_harness', 'gen_scope_globals')}), serves=["C05", "C09"])
 
 
 C(SC + ".copy", params={"self": SELF},
